@@ -169,12 +169,7 @@ Failing == IF A.name = "Stabilized" THEN {nm \in InvSel \cap {"C15_Converged", "
 
 \* Witness predicates of known findings (known_findings.json): a violation whose state satisfies
 \* one is tagged, so that the orchestrator reports it as KNOWN-FINDING instead of VIOLATION.
-\* KF-F6: the sole voter answers ReadIndex from its commit index before it has committed an entry
-\*        of its own term (the single-voter shortcut precedes the own-term check).
-KFTags(nm) ==
-  IF nm = "C11_ServedByRealLeader" /\ BothUp /\ Pre.role = "L" /\ IsSingleton(Pre) /\ I \in VotersIn(Pre.cfg)
-     /\ ZeroTerm(LogTerm(Pre, PostD, Pre.commit)) # Pre.term
-  THEN <<"KF-F6">> ELSE <<>>
+KFTags(nm) == <<>>      \* no open known findings at present (F1-F6 are fixed)
 
 \* ---- Conform mode: the specification's own transition, applied to the observed pre-state,
 \* must yield the observed post-state (node record, disk record, return value, Ready contents).
